@@ -427,7 +427,7 @@ theorem addRemote_spec (a : Agent) (c : Cand) (hi : InvA a) :
           have h2 := this.2
           simp only [Cand.taEqual, Bool.and_eq_true, beq_iff_eq] at h2
           rw [hnet, haddr]
-          exact ⟨h2.1.1, h2.2.2⟩
+          exact ⟨h2.1.1, h2.2.1.2⟩
       have hrub := ((InvC_iff a).mp hic).2.2.1
       have hne : ∀ old ∈ replaced, c2.uid ≠ old.uid := by
         intro old ho
@@ -562,7 +562,9 @@ theorem Ok_step (a : Agent) (e : Ev) (h : isData e = false) (hc : isClose e = fa
     dsimp only
     split
     · exact Ok.refl _
-    · exact Ok.trans (fun hi => ⟨(addRemote_spec a c hi).1, (addRemote_spec a c hi).2.1⟩) (Ok.of_Fr (Fr_runForced _ _))
+    · split
+      · exact Ok.refl _
+      · exact Ok.trans (fun hi => ⟨(addRemote_spec a c hi).1, (addRemote_spec a c hi).2.1⟩) (Ok.of_Fr (Fr_runForced _ _))
   | start now ctl ru rp =>
     unfold step
     dsimp only
